@@ -22,6 +22,7 @@ type AFmt struct {
 	Roots   []fmtRoot
 	writers map[*ssa.Function]bool // writer-layer functions that reach a Buffer.Write*
 	layer   map[*ssa.Function]bool // writer-layer functions
+	takers  map[*ssa.Function]bool // run A-wrap: the functions that receive a directive's verb
 }
 
 type fmtRoot struct {
@@ -177,6 +178,17 @@ func (h *fmtHooks) OnStore(c *engine.Ctx, instr ssa.Instruction, addr engine.Ptr
 				}
 			}
 		case "wrappedErr", "wrapErrs", "override":
+			if addr.Path == "wrappedErr" && h.a.takers != nil {
+				// ghost #cap: an operand was captured since the current
+				// directive began (reset when a verb-taking function is entered)
+				if o := c.Heap[addr.Obj]; o != nil {
+					if val.Key() != "nil" {
+						o.Fields["#cap"] = str("T")
+					} else if cp, _ := constStr(o.Fields["#cap"]); cp == "T" && c.Heap.Get(addr.Obj, "wrappedErr").Key() != "nil" {
+						c.It.Record(engine.Event{Kind: "uncapture", Instr: instr, Fn: c.Fn, Detail: map[string]string{"cfg": cfgString(ppConfig(c.Heap, addr.Obj))}})
+					}
+				}
+			}
 			cfg := ppConfig(c.Heap, addr.Obj)
 			c.It.Record(engine.Event{Kind: "store:" + addr.Path, Instr: instr, Fn: c.Fn, Detail: map[string]string{
 				"cfg": cfgString(cfg), "new": val.Key()}})
@@ -201,6 +213,19 @@ func loadedFromPP(c *engine.Ctx, v ssa.Value) string {
 	return ""
 }
 
+// AfterCall: the directive ends when the verb-taking function returns.
+func (h *fmtHooks) AfterCall(c *engine.Ctx, instr ssa.Instruction, callee *ssa.Function, args []engine.AbsVal, before, after engine.Heap, exc bool) {
+	if h.a.takers[callee] && len(args) > 0 {
+		if pp, ok := args[0].(engine.Ptr); ok && pp.Path == "" {
+			if o := after[pp.Obj]; o != nil {
+				if _, has := o.Fields["#cap"]; has {
+					o.Fields["#cap"] = str("F")
+				}
+			}
+		}
+	}
+}
+
 func (h *fmtHooks) LenIsZero(c *engine.Ctx, so engine.SliceOf) (bool, bool) {
 	prefix := bufPrefixOfSlice(so.Path)
 	if open, ok := constBool(c.Heap.Get(so.Obj, joinPath(prefix, "markerOpen"))); ok && open {
@@ -212,6 +237,13 @@ func (h *fmtHooks) LenIsZero(c *engine.Ctx, so engine.SliceOf) (bool, bool) {
 func (h *fmtHooks) OnCall(c *engine.Ctx, instr ssa.Instruction, callee *ssa.Function, args []engine.AbsVal) (bool, engine.AbsVal) {
 	name := callee.String()
 	caller := c.Fn
+	if h.a.takers[callee] && len(args) > 0 {
+		if pp, ok := args[0].(engine.Ptr); ok && pp.Path == "" {
+			if o := c.Heap[pp.Obj]; o != nil && objType(c.Heap, pp.Obj) == tPP {
+				o.Fields["#cap"] = str("F") // a new directive begins
+			}
+		}
+	}
 	// write events at the boundary of the writer layer
 	if h.a.layer[callee] && !h.a.layer[caller] && len(args) > 0 {
 		obj, prefix, ok := targetBuffer(c.Heap, callee, args[0])
@@ -482,6 +514,10 @@ func (c *Ctx) runFmt(wrap bool) *AFmt {
 	var takers []verbTaker
 	if wrap {
 		takers = c.verbTakers()
+		a.takers = map[*ssa.Function]bool{}
+		for _, vt := range takers {
+			a.takers[vt.fn] = true
+		}
 	}
 	for _, vt := range takers {
 		for _, verb := range []string{"w", "other"} {
@@ -492,7 +528,7 @@ func (c *Ctx) runFmt(wrap bool) *AFmt {
 					}
 					ppT := c.P.SSAPkg("internal/rfmt").Type("pp").Type()
 					fields := map[string]engine.AbsVal{
-						"panicking": boolv(false), "erroring": boolv(false), "wrapErrs": boolv(we),
+						"panicking": boolv(false), "erroring": boolv(false), "wrapErrs": boolv(we), "#cap": str("F"),
 					}
 					if wd {
 						fields["wrappedErr"] = engine.NonNil{}
